@@ -93,8 +93,82 @@ def gen_specs(ctx):
     return out
 
 
+PROMOTED_SRC = """package cs
+
+type E struct {
+	//shoot: def=208
+	port int
+}
+
+// embeds a type that has defaults, has none of its own
+type P struct {
+	*E
+	n int
+}
+
+type V struct {
+	E
+	n int
+}
+
+// control: own defaults next to the embedded type's
+type W struct {
+	E
+	//shoot: def=209
+	m int
+}
+"""
+
+PROMOTED_ORACLE = """package cs
+
+import (
+	"fmt"
+
+	"github.com/lopolopen/shoot"
+)
+
+func try(f func() string) (out string) {
+	defer func() {
+		if r := recover(); r != nil {
+			out = "panic"
+		}
+	}()
+	return f()
+}
+
+func VerifObserve(emit func(string, string)) {
+	emit("P.newwith", try(func() string { p := shoot.NewWith[P, *P](); return fmt.Sprint(p.E == nil, p.n) }))
+	emit("P.with", try(func() string { p := new(P).With(); return fmt.Sprint(p.E == nil, p.n) }))
+	emit("V.newwith", try(func() string { v := shoot.NewWith[V, *V](); return fmt.Sprint(v.port, v.n) }))
+	emit("V.with", try(func() string { v := new(V).With(); return fmt.Sprint(v.port, v.n) }))
+	emit("W.newwith", try(func() string { w := shoot.NewWith[W, *W](); return fmt.Sprint(w.port, w.m) }))
+	emit("W.with", try(func() string { w := new(W).With(); return fmt.Sprint(w.port, w.m) }))
+}
+"""
+
+
+def promoted_leg(ctx, res):
+    """With and NewWith must agree also when the type embeds a type that has a SetDefault of its own (the `def=` directives of T
+    are T's top-level ones): no model involved, the property's 'both apply the defaults first' is the oracle"""
+    b = pkgrun.Batch(ctx)
+    c = {"id": "promo", "files": {"t.go": PROMOTED_SRC}, "runs": [{"args": ["new", "-opt", "-type=E,P,V,W"]}], "oracle": {".": PROMOTED_ORACLE}}
+    b.add(c)
+    r = b.execute()["promo"]
+    obs = r["obs"]
+    res.evaluations += 1
+    if r["runs"][0]["rc"] != 0 or r["compile"] != "ok":
+        raise core.InfraError("promoted-defaults leg: shoot failed or the package does not compile: %s %s" % (r["runs"][0]["stderr"][-300:], r["compile"][:300]))
+    bad = [t for t in ("P", "V", "W") if obs.get(t + ".newwith") != obs.get(t + ".with") or "panic" in (obs.get(t + ".newwith"), obs.get(t + ".with"))]
+    if bad:
+        res.violations.append({"case": "(raw promoted-setdefault %s)" % " ".join(bad), "region": "WF", "differing_keys": [t + ".newwith" for t in bad],
+                               "sig": "raw:promoted-setdefault", "impl": obs, "spec": {"X.newwith": "= X.with, no panic"}, "model": {},
+                               "cmd": "shoot new -opt -type=E,P,V,W", "input_files": c["files"],
+                               "why": "shoot.NewWith and T.With disagree (or panic) on a type that embeds a type with defaults"})
+
+
 def run(ctx, obl):
     res = core.Result()
+    promoted_leg(ctx, res)
     specs = gen_specs(ctx)
     shorts = [ctx.rng.random() < 0.5 for _ in specs]
     # phase 1: option names and regions from the model
